@@ -1,16 +1,13 @@
 (* C05 — property theorems only.  Statements are pinned in Pins_C05.v.
 
-   STATUS (see also the evidence file): the invariant [Inv] of the repaired micro-step model is
-   defined for ANY number of threads; it holds initially (C05_init_Inv), implies the property-level
-   facts (C05_Inv_sound: no access after deallocation, exclusive access only with a single live
-   reference, the destructor runs at most once and only when no reference is left, nothing queued
-   points to a destroyed box), and is PRESERVED by the micro-steps listed in [covered]
-   (C05_step_preserves_Inv_partial: 20 of the 41 program counters).  The remaining micro-steps
-   (compare-exchange of the decrement / merge / enqueue paths, the deallocating steps, the
-   operation starts) are not yet proved: for them the invariant is validated only by the
-   correspondence on random and systematic schedules.  Hence the level claimed is `partial`. *)
+   The model has ONE shared value and ANY number of threads; a schedule is a `list tid`; every
+   theorem below quantifies over all creators, registrations, per-thread operation lists and
+   schedules.  [uaf] counts accesses to the box after its deallocation, [exclbad] counts grants of
+   exclusive access (get_mut = Some, try_unwrap = Ok) made while the number of live references was
+   not one (C05_exclusive_monitor_spec), [destr] counts destructor runs.  Memory model: sequential
+   consistency. *)
 From Coq Require Import List ZArith Bool.
-From SV Require Import c05.Model_C05 c05.Proofs_C05 c05.Proofs_C05_inv c05.Proofs_C05_step c05.Proofs_C05_gen gen.Gen_C05.
+From SV Require Import c05.Model_C05 c05.Proofs_C05 c05.Proofs_C05_inv c05.Proofs_C05_step c05.Proofs_C05_step2 c05.Proofs_C05_reclaim c05.Proofs_C05_gen gen.Gen_C05.
 Import ListNotations.
 
 Theorem C05_pack_roundtrip : forall w, in_range VALUE_BITS w ->
@@ -32,10 +29,49 @@ Theorem C05_Inv_sound : forall s, Inv s ->
   (freed s = true -> sumh (thrs s) = O /\ qs s = []).
 Proof. exact Inv_sound. Qed.
 
-Theorem C05_step_preserves_Inv_partial : forall t s s' x,
-  Inv s -> nth_error (thrs s) t = Some x -> covered (pcv x) = true ->
-  step fixed_cfg t s = Some s' -> Inv s'.
-Proof. exact step_Inv_covered. Qed.
+Theorem C05_step_preserves_Inv : forall t s s', Inv s -> step fixed_cfg t s = Some s' -> Inv s'.
+Proof. exact step_Inv. Qed.
+
+Theorem C05_schedule_preserves_Inv : forall cr regs progs sched, (cr < List.length progs)%nat ->
+  Inv (run fixed_cfg sched (init cr regs progs)).
+Proof. exact reachable_Inv. Qed.
+
+(* no access to the value after it was destroyed, under every schedule *)
+Theorem C05_no_use_after_free : forall cr regs progs sched, (cr < List.length progs)%nat ->
+  uaf (run repo_cfg sched (init cr regs progs)) = O.
+Proof. exact no_uaf_repo. Qed.
+
+(* destroyed at most once, and only when no reference is left and nothing queued points to it *)
+Theorem C05_destroyed_once : forall cr regs progs sched, (cr < List.length progs)%nat ->
+  let s := run repo_cfg sched (init cr regs progs) in
+  (destr s <= 1)%nat /\ (destr s = 1%nat <-> freed s = true) /\
+  (freed s = true -> sumh (thrs s) = O /\ qs s = []).
+Proof. exact destroyed_once_repo. Qed.
+
+(* exclusive access is granted only to the holder of the only reference, and asking for it changes
+   no count *)
+Theorem C05_exclusive_sound : forall cr regs progs sched, (cr < List.length progs)%nat ->
+  let s := run repo_cfg sched (init cr regs progs) in
+  exclbad s = O /\
+  (forall t x s', nth_error (thrs s) t = Some x ->
+     match pcv x with UnqRdOwner | UnqNoneLoad | UnqOwnRdBiased | UnqOwnLoad
+                  | UmRdOwner | UmNoneLoad | UmOwnRdBiased | UmOwnLoad => True | _ => False end ->
+     step repo_cfg t s = Some s' ->
+     owner s' = owner s /\ biased s' = biased s /\ shared s' = shared s /\ freed s' = freed s /\
+     destr s' = destr s /\ qs s' = qs s /\ sumh (thrs s') = sumh (thrs s)).
+Proof. exact exclusive_sound_repo. Qed.
+
+(* reclamation, under the hypothesis that nothing is left in a merge queue (the owner has merged after
+   the last enqueue; an owner that ended without merging is the limitation documented in lib.rs):
+   once no reference is left and no thread is inside an operation, the value has been destroyed,
+   exactly once *)
+Theorem C05_reclaim : forall cr regs progs sched, (cr < List.length progs)%nat ->
+  let s := run repo_cfg sched (init cr regs progs) in
+  quiescent s -> sumh (thrs s) = O -> qs s = [] -> freed s = true /\ destr s = 1%nat.
+Proof. exact reclaim_repo. Qed.
+
+Theorem C05_exclusive_monitor_spec : forall s, exclbad (excl_check s) = exclbad s <-> sumh (thrs s) = 1%nat.
+Proof. exact excl_check_spec. Qed.
 
 Theorem C05_has_unique_ref_refuted :
   let s := run original_cfg f1_sched (init 0%nat [0; 1]%nat f1_progs) in
